@@ -310,6 +310,7 @@ pub fn decode_check<T: Packet + PartialEq + Debug>(b: &[u8]) -> DecCheck {
                     }
                     if !(s.len() == b.len() && std::ptr::eq(s.as_ptr(), b.as_ptr())) {
                         safety.push("decode_mut-changed-the-slice-on-failure");
+                        laws.push("decode_mut-changed-the-slice-on-failure");
                     }
                 }
                 Ok(_) => laws.push("decode_mut-succeeds-where-decode-fails"),
